@@ -97,10 +97,11 @@ def main(tier, replay=None):
             keys = sorted(mapgen.colliding_strings(harness, wd, ints, mod if mod < 70000 else 1265, rng))  # token order = byte order
         else:
             keys = ints
-        hdr = mapgen.header(name, vtype, keys, [7, 8, 9])
+        same_kind = name == vtype and name in ("Int", "Probe")
+        hdr = mapgen.header(name, vtype, keys, [keys[0], keys[1], 9] if same_kind else [7, 8, 9])      # (some values are keys as well)
         ex = [mapgen.random_history(rng, "Table", len(keys), 3,
                                     rng.choice([40, 120, 300]) if quick else rng.choice([100, 400, 1500]),
-                                    init_pairs=rng.choice([0, 0, 3])) for _ in range(nexec // (3 if name == vtype or name == "String" else 6))]
+                                    init_pairs=rng.choice([0, 0, 3]), getalias=same_kind) for _ in range(nexec // (3 if name == vtype or name == "String" else 6))]
         camp.run(hdr, ex, "random/%s-%s" % (name, vtype), variant=name + vtype)
 
     # ---- 4. large tables: growth and shrinkage across many rehash sizes (5, 11, 23, 53, 101, 197, 389, 683, ...), sampled projection
